@@ -453,16 +453,56 @@ fn prop_names(ctx: &mut Ctx) {
     run_attack_side(ctx, kind, stage, bytes, what, ctx.idx % 3 == 0, connecting);
 }
 
+/// Command frames named after every command of the ZMTP 3.x family (base protocol, 3.1 heartbeats,
+/// the PLAIN/CURVE mechanisms, RADIO/DISH) with bodies of every small length: a command the library
+/// knows, or comes to know, must not trust its body to be as long as its grammar says.
+const CMD_NAMES: [&[u8]; 16] = [b"READY", b"ERROR", b"PING", b"PONG", b"SUBSCRIBE", b"CANCEL", b"HELLO", b"WELCOME", b"INITIATE", b"MESSAGE", b"JOIN", b"LEAVE", b"ping", b"Ready", b"", b"READYX"];
+const CMD_BODY_LENS: u64 = 24;
+fn cmd_names(ctx: &mut Ctx) {
+    let kind = ALL_KINDS[(ctx.idx % 9) as usize];
+    let name = CMD_NAMES[((ctx.idx / 9) % CMD_NAMES.len() as u64) as usize];
+    let mut i = ctx.idx / (9 * CMD_NAMES.len() as u64);
+    let blen = (i % CMD_BODY_LENS) as usize;
+    i /= CMD_BODY_LENS;
+    let pattern = i % 3;
+    i /= 3;
+    let long = i % 2 == 1;
+    i /= 2;
+    let stage = 1 + i % 2; // in place of the handshake READY / after the handshake
+    i /= 2;
+    let connecting = i % 2 == 1;
+    let grid = 9 * CMD_NAMES.len() as u64 * CMD_BODY_LENS * 3 * 2 * 2 * 2;
+    if ctx.idx < grid {
+        world::plain(ctx);
+    } else {
+        world::swarm(ctx, SwarmOpts::default());
+    }
+    let body: Vec<u8> = (0..blen).map(|k| match pattern { 0 => 0u8, 1 => 0xff, _ => 1 + k as u8 }).collect();
+    let mut cmd = vec![name.len() as u8];
+    cmd.extend_from_slice(name);
+    cmd.extend_from_slice(&body);
+    let mut f = if long { let mut h = vec![0x06]; h.extend(be64(cmd.len() as u64)); h } else { vec![0x04, cmd.len() as u8] };
+    f.extend(cmd);
+    // followed by ordinary traffic, so that a command that is tolerated is also survived
+    let mut m = if matches!(kind, Kind::Rep | Kind::Req) { vec![vec![]] } else { vec![] };
+    m.push(b"after".to_vec());
+    f.extend(rc::encode_msg(&m));
+    ctx.out.extra_shape = ctx.idx % grid;
+    let what = format!("command {:?} with a body of {} bytes (pattern {}, {} form)", String::from_utf8_lossy(name), blen, pattern, if long { "long" } else { "short" });
+    run_attack_side(ctx, kind, stage, f, what, ctx.idx % 3 == 0, connecting);
+}
+
 pub fn def() -> PropDef {
     PropDef {
         id: "C03",
         level: "exploration",
-        rule: "catalogue: the case index enumerates socket kind (9) x stage {first bytes, after a valid greeting, after a valid handshake} x 34 structure-aware attacks (a series of well-formed subscriptions and cancellations with filters around the topics published afterwards, long runs of well-formed commands after the handshake, truncated/oversized commands, property lengths beyond the frame, non-UTF-8 names, 64-bit sizes 2^31..2^64-1 on message and command frames, thousands of MORE frames in one segment, huge declared frames of which 9 KiB .. 1 MiB are really delivered, bad signature/version/mechanism, reserved flags, random bytes), first undisturbed then under drawn transport/schedule, with and without a closing attacker; alphabet: all 19607 strings of length <= 5 over {00,01,02,04,06,05,ff} x {after greeting, after handshake} (thorough: enumerated; quick: sampled); mutated: random mutations of a valid stream; a healthy peer exchanges tagged traffic before and after; oracles: no panic in any task or API call, worker process survives (stack overflow / abort are seen as signals by the driver), largest single allocation after the first hostile byte <= 256 KiB + 64 x bytes sent, healthy traffic still delivered; non-trivial = judgement reached; distinct = distinct (case, plan, schedule, transport)",
+        rule: "catalogue: the case index enumerates socket kind (9) x stage {first bytes, after a valid greeting, after a valid handshake} x 34 structure-aware attacks (a series of well-formed subscriptions and cancellations with filters around the topics published afterwards, long runs of well-formed commands after the handshake, truncated/oversized commands, property lengths beyond the frame, non-UTF-8 names, 64-bit sizes 2^31..2^64-1 on message and command frames, thousands of MORE frames in one segment, huge declared frames of which 9 KiB .. 1 MiB are really delivered, bad signature/version/mechanism, reserved flags, random bytes), first undisturbed then under drawn transport/schedule, with and without a closing attacker; alphabet: all 19607 strings of length <= 5 over {00,01,02,04,06,05,ff} x {after greeting, after handshake} (thorough: enumerated; quick: sampled); mutated: random mutations of a valid stream; cmd_names: command frames named after each command of the ZMTP 3.x family (READY, ERROR, PING, PONG, SUBSCRIBE, CANCEL, HELLO, WELCOME, INITIATE, MESSAGE, JOIN, LEAVE and misspellings) with bodies of 0..23 bytes in three byte patterns, short and long form, in place of the handshake READY or after it; a healthy peer exchanges tagged traffic before and after; oracles: no panic in any task or API call, worker process survives (stack overflow / abort are seen as signals by the driver), largest single allocation after the first hostile byte <= 256 KiB + 64 x bytes sent, healthy traffic still delivered; non-trivial = judgement reached; distinct = distinct (case, plan, schedule, transport)",
         assumptions: &["run thread stack 2 MiB (tokio's worker default) and the library built unoptimised with debug assertions: both are documented parameters of the stack-depth clause", "allocation failure itself is not injected; the size of requests is judged"],
         strata: vec![
             Stratum { name: "catalogue", quick: 27 * NATTACKS * 8, thorough: (27 * NATTACKS * 200) * 10, exhaustive: (true, true), run: catalogue, what: "kind x stage x attack catalogue" },
             Stratum { name: "alphabet", quick: 30_000, thorough: NALPHA * 2 * 2, exhaustive: (false, true), run: alphabet, what: "all strings <= 5 over a reduced alphabet of flag/length/command bytes" },
             Stratum { name: "prop_names", quick: 180 * 18 * 3, thorough: 180 * 18 * 60, exhaustive: (true, true), run: prop_names, what: "READY property names and values at the edges of the grammar x stage x side x socket type" },
+            Stratum { name: "cmd_names", quick: 9 * 16 * 24 * 3 * 2 * 2 * 2, thorough: 9 * 16 * 24 * 3 * 2 * 2 * 2 * 40, exhaustive: (true, true), run: cmd_names, what: "commands named after every ZMTP 3.x command (16 names) x body length 0..23 x 3 body patterns x short/long form x stage x side x socket type; first undisturbed, thorough also under drawn transport/schedule" },
             Stratum { name: "mutated", quick: 100_000, thorough: (1_500_000) * 8, exhaustive: (false, false), run: mutated, what: "random mutations of valid streams" },
         ],
     }
